@@ -8,7 +8,7 @@ import storeprop  # noqa: E402
 ID = "C05"
 THEOREMS = ["c05_link_is_alias", "c05_link_keeps_attrs", "c05_write_seen_through_all_paths",
             "c05_refused_append_unchanged", "c05_linked_dimension_is_alias", "c05_linked_set_dimension",
-            "c05_dimension_write_through", "c05_ticks_and_link_replace_each_other"]
+            "c05_dimension_write_through", "c05_ticks_and_link_replace_each_other", "c05_feature_data_is_alias"]
 PRELUDES = [
     # sources (top-level and nested) taken FROM one entity's source list and appended to the lists of others
     [["create", 0, "CBlocks", "a", "t", []], ["create", 1, "CSources", "a", "t", []], ["create", 2, "CSources", "b", "t", []],
